@@ -129,6 +129,7 @@ pub fn trace(rng: &mut Rng, count: u64, emit: Emit) {
             format!("pc = 0x{:x}; Stat = STAT_AOK; mem_addr = 0x{:x}; mem_writebit = 1; mem_readbit = 0; mem_input = 0x{:x};\n", pc, pc, newval)
         } else { format!("pc = 0x{:x}; Stat = STAT_HLT;\n", pc) };
         let cycles = if selfmod { 3 } else { 1 };
+        crate::watch::note_text("trace", &text);
         let contents = hclrs::FileContents::new_from_data(hclrs::verif_hooks::y86_preamble(), &text, "t.hcl");
         let mem2 = mem.clone();
         let lines: Vec<String> = std::panic::catch_unwind(std::panic::AssertUnwindSafe(|| match hclrs::parse_y86_hcl(&contents) {
@@ -246,6 +247,7 @@ pub fn dump(rng: &mut Rng, count: u64, emit: Emit) {
             text.push_str(&assigns);
         }
         text.push_str("pc = 0; Stat = STAT_AOK;\n");
+        crate::watch::note_text("dump", &text);
         let full = format!("{}{}", hclrs::verif_hooks::y86_preamble(), text);
         let sexp = match hclrs::verif_hooks::parse_statements(&full) { Ok(s) => s, Err(_) => { emit(format!("(noparse {})", sexp_escape(&text)), String::from("noparse")); continue; } };
         let contents = hclrs::FileContents::new_from_data(hclrs::verif_hooks::y86_preamble(), &text, "t.hcl");
@@ -329,6 +331,7 @@ pub fn options(rng: &mut Rng, count: u64, emit: Emit) {
         let base = run_program(&text, g.cycles, &g.mem, &format!("(tags options) (text {})", sexp_escape(&text)));
         let mut result = base.result.clone();
         if base.accepted {
+            crate::watch::note_text("options", &text);
             let contents = hclrs::FileContents::new_from_data(hclrs::verif_hooks::y86_preamble(), &text, "t.hcl");
             // a sample of the 32 subsets: always the full set, the empty set and 6 random ones
             let mut subsets: Vec<u32> = vec![0, 31];
@@ -375,6 +378,46 @@ pub fn options(rng: &mut Rng, count: u64, emit: Emit) {
                     }
                 }
                 write!(states, " end={}", fin).unwrap();
+                // the same options through `run()`, which prints the state between cycles (unless quiet) and at the end
+                // (unless testing): printing must not change how far the run gets or where it ends
+                if fin == "ok" && states == base.result {
+                    let program2 = match hclrs::parse_y86_hcl(&contents) { Ok(p) => p, Err(_) => { result = String::from("OPTIONS-DIFF third build rejected"); break; } };
+                    let mut rp2 = hclrs::RunningProgram::new_y86(program2);
+                    rp2.verif_set_memory(&g.mem);
+                    let mut o2 = hclrs::RunOptions::default();
+                    if sub & 1 != 0 { o2.set_quiet(); }
+                    if sub & 2 != 0 { o2.set_debug(); }
+                    if sub & 4 != 0 { o2.set_test(); }
+                    if sub & 8 != 0 { o2.set_no_group_wire_values(); }
+                    if sub & 16 != 0 { o2.set_trace_assignments(); }
+                    o2.set_timeout(g.cycles);
+                    rp2.set_options(o2);
+                    let mut sink: Vec<u8> = Vec::new();
+                    let ran = std::panic::catch_unwind(std::panic::AssertUnwindSafe(|| rp2.run(&mut sink)));
+                    // the reference: the same program stepped quietly until done or the budget is used up
+                    let program3 = match hclrs::parse_y86_hcl(&contents) { Ok(p) => p, Err(_) => { result = String::from("OPTIONS-DIFF fourth build rejected"); break; } };
+                    let mut rp3 = hclrs::RunningProgram::new_y86(program3);
+                    rp3.verif_set_memory(&g.mem);
+                    let mut o3 = hclrs::RunOptions::default();
+                    o3.set_quiet();
+                    o3.set_timeout(g.cycles);
+                    rp3.set_options(o3);
+                    let mut sink3 = std::io::sink();
+                    let ran3 = std::panic::catch_unwind(std::panic::AssertUnwindSafe(|| rp3.run(&mut sink3)));
+                    let describe = |r: &std::thread::Result<Result<(), hclrs::Error>>, rp: &hclrs::RunningProgram| -> String {
+                        match r {
+                            Err(_) => String::from("PANIC"),
+                            Ok(Err(e)) => format!("error {}", crate::progrun::diag_string(&hclrs::verif_hooks::error_summary(e))),
+                            Ok(Ok(())) => format!("cycle={} {}", rp.cycle(), crate::progrun::state_string(rp)),
+                        }
+                    };
+                    let a = describe(&ran, &rp2);
+                    let b = describe(&ran3, &rp3);
+                    if a != b {
+                        result = format!("OPTIONS-DIFF run() under subset {} gives {} but quietly {}", sub, &a[..a.len().min(200)], &b[..b.len().min(200)]);
+                        break;
+                    }
+                }
                 if states != base.result {
                     result = format!("OPTIONS-DIFF subset {} gives {} instead of {}", sub, &states[..states.len().min(200)], &base.result[..base.result.len().min(200)]);
                     break;
@@ -404,6 +447,7 @@ pub fn table(rng: &mut Rng, count: u64, emit: Emit) {
             }
         }
         let grouped = rng.chance(2, 3);
+        crate::watch::note_text("table", &text);
         let full = format!("{}{}", hclrs::verif_hooks::y86_preamble(), text);
         let sexp = match hclrs::verif_hooks::parse_statements(&full) { Ok(s) => s, Err(_) => { emit(format!("(noparse {})", sexp_escape(&text)), String::from("noparse")); continue; } };
         let contents = hclrs::FileContents::new_from_data(hclrs::verif_hooks::y86_preamble(), &text, "t.hcl");
@@ -477,6 +521,7 @@ pub fn lex(rng: &mut Rng, count: u64, emit: Emit) {
     for _ in 0..count {
         let text = random_text(rng);
         let t2 = text.clone();
+        crate::watch::note_text("lex", &t2);
         let res = std::panic::catch_unwind(move || hclrs::verif_hooks::lex(&t2));
         let result = match res {
             Err(_) => String::from("PANIC"),
@@ -557,6 +602,7 @@ pub fn literal(rng: &mut Rng, count: u64, emit: Emit) {
         }
         let _ = failed;
         let t2 = text.clone();
+        crate::watch::note_text("literal", &t2);
         let res = std::panic::catch_unwind(move || hclrs::verif_hooks::lex(&t2));
         let got = match res {
             Err(_) => String::from("PANIC"),
@@ -614,6 +660,7 @@ pub fn region(rng: &mut Rng, count: u64, emit: Emit) {
         };
         let (p2, u2, n2) = (pre.clone(), user.clone(), name.to_string());
         let res = std::panic::catch_unwind(move || {
+            crate::watch::note_text("region", &u2);
             let fc = FileContents::new_from_data(&p2, &u2, &n2);
             let shown = fc.show_region(start, end);
             let clamp = |x: usize| std::cmp::min(x, p2.len() + u2.len());
@@ -726,6 +773,7 @@ pub fn diag(rng: &mut Rng, count: u64, emit: Emit) {
             _ => None,
         };
         let name = "t.hcl";
+        crate::watch::note_text("diag", &user);
         let contents = FileContents::new_from_data(pre, &user, name);
         let res = catch_unwind(AssertUnwindSafe(|| {
             match parse_y86_hcl(&contents) {
@@ -763,7 +811,7 @@ pub fn anytext(rng: &mut Rng, count: u64, emit: Emit) {
     let toks: [&str; 43] = ["wire", "const", "register", "in", "x", "pc", "Stat", "=", "==", ";", ":", ",", "(", ")", "[", "]", "{", "}", "..",
         "+", "-", "*", "/", "&&", "||", "!", "~", "<", ">>", "0", "1", "0b101", "0x1f", "8", "é", "€", "/*", "*/", "#", "\"", "\u{b2}", "\u{663}", "\u{bd}"];
     for _ in 0..count {
-        let mode = rng.below(10);
+        let mode = rng.below(11);
         let mut bytes: Vec<u8> = if mode == 0 { random_text(rng).into_bytes() } else if mode == 8 {
             // a half-wired built-in component whose enable signal is a constant expression of any kind
             let nasty: [&str; 16] = ["0b11[3..1]", "1/0", "[0:1]", "0b11 && 1", "(0xffffffffffffffffffffffffffffffff .. 0b1)", "[1 : 0x100; 0 : 0b1]",
@@ -788,6 +836,22 @@ pub fn anytext(rng: &mut Rng, count: u64, emit: Emit) {
                     g.stmts.insert(at, proggen::Stmt::Raw(stmt));
                 } else { proggen::inject_fault(rng, &mut g); }
             }
+            if mode == 10 {
+                // a bit selection whose bounds are beyond any width, on sized and unsized operands, where it is evaluated while
+                // the program is built (constant, register default) or at run time (assignment)
+                let hi = *rng.pick(&[129u128, 130, 200, 255, 256, 300, 65535, 1u128 << 64][..]);
+                let lo = *rng.pick(&[0u128, 1, 100, 128, 129, 254][..]);
+                let operand = *rng.pick(&["0xFF", "5", "(1+2)", "STAT_AOK", "0b1", "pc", "i10bytes", "(0xffffffffffffffffffffffffffffffff)", "-1"][..]);
+                let sel = format!("{}[{}..{}]", operand, lo, hi);
+                let stmt = match rng.below(4) {
+                    0 => format!("const ZQ9 = {};", sel),
+                    1 => format!("register qZ {{ a : 8 = {}; }} q_a = Z_a;", sel),
+                    2 => format!("wire zz9:8; zz9 = {};", sel),
+                    _ => format!("const ZQ9 = 1; wire zz9:64; zz9 = [ZQ9 == 1 : {}; 1 : 0];", sel),
+                };
+                let at = rng.below(g.stmts.len() as u64 + 1) as usize;
+                g.stmts.insert(at, proggen::Stmt::Raw(stmt));
+            }
             proggen::render_program(&g.stmts).into_bytes()
         };
         let mut how = String::from("soup");
@@ -795,6 +859,7 @@ pub fn anytext(rng: &mut Rng, count: u64, emit: Emit) {
             match mode {
                 8 => { how = String::from("half-wired-component"); }
                 9 => { how = String::from("fault-injected"); }
+                10 => { how = String::from("huge-slice-bounds"); }
                 1 => { let cut = rng.below(bytes.len() as u64 + 1) as usize; bytes.truncate(cut); how = String::from("truncated"); }
                 2 | 3 | 4 => {
                     // edit at a blank: insert, delete or substitute one token
@@ -836,6 +901,7 @@ pub fn anytext(rng: &mut Rng, count: u64, emit: Emit) {
         // rendering of the diagnostics, like main() does
         let t2 = text.clone();
         let rendered = catch_unwind(AssertUnwindSafe(|| {
+            crate::watch::note_text("anytext", &t2);
             let contents = FileContents::new_from_data(pre, &t2, "t.hcl");
             match parse_y86_hcl(&contents) {
                 Ok(_) => String::from("accepted"),
@@ -856,6 +922,7 @@ pub fn anytext(rng: &mut Rng, count: u64, emit: Emit) {
             Some(req) => emit(format!("(anytext (how {}) (render {}) {})", how, rendered, req), out.result),
             None => {
                 let t3 = text.clone();
+                crate::watch::note_text("lex", &t3);
                 let res = catch_unwind(move || hclrs::verif_hooks::lex(&t3));
                 let lexed = match res {
                     Err(_) => String::from("PANIC"),
@@ -937,6 +1004,7 @@ pub fn parse(rng: &mut Rng, count: u64, emit: Emit) {
         };
         let tmin = render_min(&e);
         let tfull = render(&e);
+        crate::watch::note_text("parse", &tfull);
         let pmin = hclrs::verif_hooks::parse_expr(&tmin);
         let pfull = hclrs::verif_hooks::parse_expr(&tfull);
         // the same text with comments, blanks, CR/LF put where it has a blank, and wrapped in redundant parentheses
@@ -958,5 +1026,105 @@ pub fn parse(rng: &mut Rng, count: u64, emit: Emit) {
         };
         let cps: Vec<String> = tmin.chars().map(|c| (c as u32).to_string()).collect();
         emit(format!("(parse {} (text {}) (src {}))", cls3_sexp(&tmin), cps.join(" "), sexp_escape(&tmin)), result);
+    }
+}
+
+/// C12 ("renaming wires consistently or reordering statements leaves every wire's value in every cycle and the final
+/// machine state unchanged"): a generated program, the same statements shuffled, and the program with every declared
+/// wire and constant renamed, all through the real code; the three must agree (the result reported is the first
+/// program's, or a description of the disagreement)
+pub fn reorder(rng: &mut Rng, count: u64, emit: Emit) {
+    fn rename_expr(e: &crate::gen::GExpr, f: &dyn Fn(&str) -> String) -> crate::gen::GExpr {
+        use crate::gen::GExpr::*;
+        match e {
+            Const(v, w, sp) => Const(*v, *w, *sp),
+            Name(n) => Name(f(n)),
+            Bin(op, a, b) => Bin(*op, Box::new(rename_expr(a, f)), Box::new(rename_expr(b, f))),
+            Un(op, a) => Un(*op, Box::new(rename_expr(a, f))),
+            Mux(arms) => Mux(arms.iter().map(|(c, v)| (rename_expr(c, f), rename_expr(v, f))).collect()),
+            Slice(a, lo, hi) => Slice(Box::new(rename_expr(a, f)), *lo, *hi),
+            Concat(a, b) => Concat(Box::new(rename_expr(a, f)), Box::new(rename_expr(b, f))),
+            In(a, items) => In(Box::new(rename_expr(a, f)), items.iter().map(|x| rename_expr(x, f)).collect()),
+        }
+    }
+    // values of a state string sorted by (renamed) name; diagnostics as a sorted list
+    fn canon(result: &str, f: &dyn Fn(&str) -> String, names_in_diags: bool) -> String {
+        if result.starts_with("ok") {
+            let mut out = String::new();
+            for part in result.split(' ') {
+                if part.starts_with('{') {
+                    let inner = &part[1..part.len() - 1];
+                    let mut secs = inner.splitn(2, '|');
+                    let vals = secs.next().unwrap_or("");
+                    let rest = secs.next().unwrap_or("");
+                    let mut items: Vec<String> = vals.split(',').filter(|x| !x.is_empty()).map(|kv| {
+                        let mut p = kv.splitn(2, '=');
+                        let n = p.next().unwrap_or("");
+                        format!("{}={}", f(n), p.next().unwrap_or(""))
+                    }).collect();
+                    items.sort();
+                    out.push_str(&format!("{{{}|{}}} ", items.join(","), rest));
+                } else { out.push_str(part); out.push(' '); }
+            }
+            out
+        } else if result.starts_with("rej") {
+            let mut items: Vec<String> = result.split(' ').skip(1).map(|d| {
+                let mut p = d.split(':');
+                let kind = p.next().unwrap_or("").to_string();
+                if kind == "WireLoop" || !names_in_diags { kind } else {
+                    let names: Vec<String> = p.map(|n| f(n)).collect();
+                    format!("{}:{}", kind, names.join(":"))
+                }
+            }).collect();
+            items.sort();
+            format!("rej {}", items.join(" "))
+        } else { result.to_string() }
+    }
+    for _ in 0..count {
+        let profile = *rng.pick(&[Profile::Dag, Profile::Banks, Profile::RegFile, Profile::Memory, Profile::Status]);
+        let mut g = proggen::program(rng, profile);
+        // a fault now and then: rejection must not depend on the order or the names either
+        if rng.chance(1, 5) { proggen::inject_fault(rng, &mut g); }
+        let text = proggen::render_program(&g.stmts);
+        let base = run_program(&text, g.cycles, &g.mem, &format!("(tags reorder) (text {})", sexp_escape(&text)));
+        let mut result = base.result.clone();
+        let id = |n: &str| n.to_string();
+        // the statements in another order
+        let mut st2 = g.stmts.clone();
+        rng.shuffle(&mut st2);
+        let text2 = proggen::render_program(&st2);
+        let r2 = run_program(&text2, g.cycles, &g.mem, "");
+        if canon(&r2.result, &id, true) != canon(&base.result, &id, true) {
+            result = format!("REORDER-DIFF shuffled statements give {} instead of {} for {}", &r2.result[..r2.result.len().min(160)],
+                &base.result[..base.result.len().min(160)], sexp_escape(&text2));
+        } else if !g.stmts.iter().any(|s| matches!(s, proggen::Stmt::Raw(_))) {
+            // every declared wire and constant under a new name
+            let mut declared: Vec<String> = Vec::new();
+            for s in &g.stmts { match s { proggen::Stmt::Wire(n, _) | proggen::Stmt::Const(n, _) => declared.push(n.clone()), _ => {} } }
+            let salt = rng.below(1000);
+            let style = rng.below(3);
+            let f = move |n: &str| -> String {
+                if declared.iter().any(|d| d == n) {
+                    match style { 0 => format!("zq{}k{}", n, salt), 1 => format!("{}_{}", n.to_uppercase(), salt), _ => format!("\u{e9}{}\u{3b1}", n) }
+                } else { n.to_string() }
+            };
+            let st3: Vec<proggen::Stmt> = g.stmts.iter().map(|s| match s {
+                proggen::Stmt::Wire(n, w) => proggen::Stmt::Wire(f(n), *w),
+                proggen::Stmt::Const(n, e) => proggen::Stmt::Const(f(n), rename_expr(e, &f)),
+                proggen::Stmt::Assign(ns, e) => proggen::Stmt::Assign(ns.iter().map(|n| f(n)).collect(), rename_expr(e, &f)),
+                proggen::Stmt::Bank(n, regs) => proggen::Stmt::Bank(n.clone(), regs.iter().map(|(r, w, d)| (r.clone(), *w, rename_expr(d, &f))).collect()),
+                proggen::Stmt::Raw(t) => proggen::Stmt::Raw(t.clone()),
+            }).collect();
+            let text3 = proggen::render_program(&st3);
+            let r3 = run_program(&text3, g.cycles, &g.mem, "");
+            if canon(&r3.result, &id, false) != canon(&base.result, &f, false) {
+                result = format!("RENAME-DIFF renamed wires give {} instead of {} for {}", &r3.result[..r3.result.len().min(160)],
+                    &base.result[..base.result.len().min(160)], sexp_escape(&text3));
+            }
+        }
+        match base.request {
+            Some(req) => emit(req, result),
+            None => emit(format!("(noparse {})", sexp_escape(&text)), result),
+        }
     }
 }
